@@ -29,7 +29,7 @@ DTYPES = ('float64', 'float32')
 
 def plan(tier, seed):
     if tier == 'quick':
-        return dict(n=14 + 42 + 120, budget_s=60, case_timeout=120)
+        return dict(n=14 + 42 + 300, budget_s=60, case_timeout=120)
     return dict(n=14 + 2000 + 90000, budget_s=840, case_timeout=120)
 
 
